@@ -14,7 +14,9 @@
    Ops    = Define parents own_tags(per key name) tagger_tags(per tagger function) own_required_fields keyerror_hook
           | Decode site present_keys(with hashable / unhashable values) present_fields
           | DecodeSeq [(site, keys, fields)]   (one call of a holder with several discriminated fields)
-          | DecodeBad site                      (the input is not a mapping).
+          | DecodeBad site                      (the input is not a mapping)
+          | DecodeF format site keys fields      (the same call through from_msgpack / orjson's from_json: the dispatcher
+                                                 compiled for that format; [comp]/[cur] below).
    One dispatcher function for both modes; entering a class is a leaf (accept / reject / leak KeyError) or a nested
    dispatcher of either mode.  This file holds only executable definitions (it must keep running when a proof breaks). *)
 From Coq Require Import List Arith Bool.
@@ -120,7 +122,12 @@ Definition refill (cl: list cls) (s: site) (r: reg) : reg :=
 Definition rkey := (nat * nat)%type.
 Definition rkey_eqb (a b: rkey) : bool := Nat.eqb (fst a) (fst b) && Nat.eqb (snd a) (snd b).
 
-Record st := St { classes : list cls; regs : list (rkey * reg) }.
+(* [comp]: (class, format) pairs = the class has its OWN per-format unpack method `__mashumaro_from_dict_<format>__`
+   (format id > 0: msgpack, orjson, ...; compiled on demand only: by a refill for every registered variant, by a no-field
+   loop for every variant it tries).  The method of format 0 (`__mashumaro_from_dict__`) is compiled together with the
+   registry entry (private registries) or at class creation (mixin hierarchies of class-level dispatchers).
+   [cur]: the format of the running call (set by DecodeF for the duration of one call, 0 between calls). *)
+Record st := St { classes : list cls; regs : list (rkey * reg); comp : list (nat * nat); cur : nat }.
 
 Fixpoint get_reg (k: rkey) (rs: list (rkey * reg)) : reg :=
   match rs with
@@ -158,13 +165,15 @@ Inductive op :=
 | Define (parents: list nat) (own_tags: keys) (tagger_tags: list (nat * list tag)) (own_req: list nat) (kerr: bool)
 | Decode (site_id: nat) (inp: inkeys) (present: list nat)
 | DecodeSeq (fields: list (nat * inkeys * list nat))
+| DecodeF (fmt: nat) (site_id: nat) (inp: inkeys) (present: list nat)   (* from_msgpack / from_json (orjson) ...: the
+     dispatcher compiled for format [fmt] - same registry attribute for a class-level site, other variant method *)
 | DecodeBad (site_id: nat).     (* the input is not a mapping (a list, a number, a string, None) *)
 (* [inp]: the discriminator keys PRESENT in the input with their values (a key present with a falsy value or None
    is present); [present]: the other fields present.  DecodeSeq = ONE from_dict call of a holder with several
    discriminated fields: (site, its sub-input) in field order; the first failing field raises. *)
 
 (* what `cls.from_dict(value)` of a class WITHOUT class-level discriminator does *)
-Inductive verdict := VAccept | VReject | VKeyError.
+Inductive verdict := VAccept | VReject | VKeyError | VAttrError.   (* ... or leaks an AttributeError *)
 
 Inductive outcome :=
 | OInst (c: nat)
@@ -175,9 +184,22 @@ Inductive outcome :=
 | OKeyErr (c: nat)         (* a KeyError leaving class c's from_dict surfaces (swallowed only by a no-field loop) *)
 | OMany (cs: list nat)     (* all fields of a DecodeSeq succeeded *)
 | ONotDict                 (* ValueError "Argument for ... discriminated by ... should be a dict instance" *)
-| OCrash.                  (* TypeError from compiling NoneType during a refill (the registry is filled nevertheless) *)
+| OCrash
+| OAttrErr (c: nat).       (* an AttributeError leaving class c's from_dict surfaces (the variant is called outside the guarded lookup) *)                  (* TypeError from compiling NoneType during a refill (the registry is filled nevertheless) *)
 
-Definition st0 : st := St [] [].
+Definition st0 : st := St [] [] [] 0.
+
+Definition set_cur (f: nat) (x: st) : st := St (classes x) (regs x) (comp x) f.
+
+(* `'__mashumaro_from_dict_<fmt>__' in variant.__dict__` (nailed builders; a codec keeps its variants' methods together
+   with its registry on its own AttrsHolder objects) *)
+Definition has_method (codec: bool) (x: st) (c: nat) : bool :=
+  codec || Nat.eqb (cur x) 0 || existsb (fun p => Nat.eqb (fst p) c && Nat.eqb (snd p) (cur x)) (comp x).
+
+(* `if get_class_that_defines_method(name, variant) != variant: CodeBuilder(variant, format_name=..).add_unpack_method()` *)
+Definition mark (codec: bool) (vs: list nat) (x: st) : st :=
+  if codec || Nat.eqb (cur x) 0 then x
+  else St (classes x) (regs x) (map (fun v => (v, cur x)) vs ++ comp x) (cur x).
 
 Section Step.
   (* what does class k do with an input that has the given fields? (abstract in the theorems) *)
@@ -194,6 +216,7 @@ Section Step.
     | VAccept => OInst c
     | VReject => ORej c
     | VKeyError => OKeyErr c
+    | VAttrError => OAttrErr c
     end.
 
   (* `variant.from_dict(value)` ENTERS a class: a class that declares its own class-level discriminator is a
@@ -212,7 +235,7 @@ Section Step.
     (* a codec compiles every registered variant afresh on each refill (new AttrsHolder):
        the registries of their nested class-level dispatchers start empty again *)
     let rs := if codec then reset_nested top (built (classes x0) s) (regs x0) else regs x0 in
-    let x' := St (classes x0) ((k, r') :: rs) in
+    let x' := mark codec (built (classes x0) s) (St (classes x0) ((k, r') :: rs) (comp x0) (cur x0)) in
     if crash_on_refill s then (x', OCrash) else
     match reg_get t r' with
     | Some c => enter x' c                                        (* the call is outside the guarded lookup *)
@@ -223,7 +246,8 @@ Section Step.
   Definition field_body (enter: st -> nat -> st * outcome) (top: nat) (codec: bool) (k: rkey) (s: site) (t: tag)
                         (x: st) : st * outcome :=
     match reg_get t (get_reg k (regs x)) with
-    | Some c => enter x c                                         (* try: unpack = registry[tag].from_dict / return unpack(value) *)
+    | Some c => if has_method codec x c then enter x c            (* try: unpack = registry[tag].from_dict / return unpack(value) *)
+                else refill_retry enter top codec k s t x         (* the method is not the variant's own: raise AttributeError *)
     | None => refill_retry enter top codec k s t x
     end.
 
@@ -249,7 +273,8 @@ Section Step.
           | Some Unhashable => (x, ONotFound)                       (* hash(tag) -> TypeError: no variant can carry it; no lookup, no refill *)
           | Some (Hashable t) => field_body enter top codec k s t x
           end
-        else loop_body enter (variants (classes x) s) x
+        else loop_body (fun x1 v => enter (mark codec [v] x1) v) (variants (classes x) s) x   (* a variant without its
+                                                                     own method is compiled right before it is tried *)
     end.
 
   Definition decode1 (x: st) (i: nat) (inp: inkeys) (present: list nat) : st * outcome :=
@@ -279,9 +304,10 @@ Section Step.
 
   Definition step (x: st) (o: op) : st * option outcome :=
     match o with
-    | Define ps tg tu rq ke => (St (classes x ++ [define (classes x) ps tg tu rq ke]) (regs x), None)
+    | Define ps tg tu rq ke => (St (classes x ++ [define (classes x) ps tg tu rq ke]) (regs x) (comp x) (cur x), None)
     | Decode i inp present => let (x', o) := decode1 x i inp present in (x', Some o)
     | DecodeSeq l => let (x', o) := decode_seq x l [] in (x', Some o)
+    | DecodeF f i inp present => let (x', o) := decode1 (set_cur f x) i inp present in (set_cur 0 x', Some o)
     | DecodeBad i => (x, Some (decode_bad x i))
     end.
 
@@ -306,8 +332,10 @@ Definition defs (ops: list op) : list cls :=
 (* concrete acceptance used by the correspondence: the hook raises KeyError on the marker field, else every
    required field must be present *)
 Definition kerr_marker : nat := 999.
+Definition aerr_marker : nat := 998.
 Definition acc_req (k: cls) (present: list nat) : verdict :=
   if c_kerr k && memb kerr_marker present then VKeyError
+  else if c_kerr k && memb aerr_marker present then VAttrError
   else if forallb (fun f => memb f present) (c_req k) then VAccept else VReject.
 
 (* computable domain predicate: at most one eligible class carries tag t *)
@@ -326,7 +354,7 @@ Fixpoint list_eqb {A} (e: A -> A -> bool) (a b: list A) : bool :=
 
 Definition outcome_eqb (a b: outcome) : bool :=
   match a, b with
-  | OInst x, OInst y | ORej x, ORej y | OKeyErr x, OKeyErr y => Nat.eqb x y
+  | OInst x, OInst y | ORej x, ORej y | OKeyErr x, OKeyErr y | OAttrErr x, OAttrErr y => Nat.eqb x y
   | OMissing, OMissing | ONotFound, ONotFound | OBadSite, OBadSite => true
   | OMany x, OMany y => list_eqb Nat.eqb x y
   | ONotDict, ONotDict | OCrash, OCrash => true
@@ -354,6 +382,14 @@ Fixpoint uniq_flags (sites: list site) (cl: list cls) (ops: list op) : list (opt
        | None => None
        end) :: uniq_flags sites cl r
   | DecodeSeq _ :: r => None :: uniq_flags sites cl r
+  | DecodeF _ i inp _ :: r =>
+      (match nth_error sites i with
+       | Some s => match assoc (s_fid s) inp with
+                   | Some (Hashable t) => if s_field s then Some (tag_uniqueb cl s t) else None
+                   | _ => None
+                   end
+       | None => None
+       end) :: uniq_flags sites cl r
   | DecodeBad _ :: r => None :: uniq_flags sites cl r
   end.
 
